@@ -473,6 +473,10 @@ pub struct MergeCase {
     pub ov: Ov,
     pub zone: ZoneSel,
     pub offset_given: bool,
+    /// minutes added to the zone's offset in the supplied `offset` field (0 = the matching offset); with the default
+    /// offset option (reject) a record whose offset contradicts its time zone is a RangeError
+    #[serde(default)]
+    pub offset_delta: i16,
 }
 pub struct MergeSub;
 
@@ -513,7 +517,7 @@ fn execute(c: &MergeCase) -> Result<Result<Fields, TemporalError>, String> {
         (Ty::YearMonth, Op::With) => recv_ym(c.recv_day).with(c.pd.build(), c.ov.opt()).map(|r| f_ym(&r)),
         (Ty::YearMonth, Op::From) => PlainYearMonth::from_partial(c.pd.build(), c.ov.bare()).map(|r| f_ym(&r)),
         (Ty::Zoned, _) => {
-            let offset = c.offset_given.then(|| UtcOffset::from_str(&fmt::offset_minutes(c.zone.minutes())).expect("offset string"));
+            let offset = c.offset_given.then(|| UtcOffset::from_str(&fmt::offset_minutes((c.zone.minutes() + c.offset_delta as i64).clamp(-1439, 1439))).expect("offset string"));
             let p = PartialZonedDateTime::new().with_date(c.pd.build()).with_time(c.pt.build()).with_offset(offset).with_timezone(Some(c.zone.tz()));
             ZonedDateTime::from_partial_with_provider(p, c.ov.opt(), None, None, &c.zone.provider()).map(|r| f_zdt(&r))
         }
@@ -543,7 +547,11 @@ impl SubCheck for MergeSub {
             reject: c.ov.reject(),
             offset_s: c.zone.minutes() * 60,
         };
-        let mo = model(&mi);
+        let mut mo = model(&mi);
+        let contradicting = c.ty == Ty::Zoned && c.offset_given && (c.zone.minutes() + c.offset_delta as i64).clamp(-1439, 1439) != c.zone.minutes();
+        if contradicting && mo.res.is_ok() {
+            mo.res = Err(ErrSet { ty: false, range: true });
+        }
         let c2 = MergeCase { pd: pd.clone(), pt, ..c.clone() };
 
         // --- classes and the non-triviality rule
@@ -1284,7 +1292,7 @@ fn merge_case_at_limits() -> BoxedStrategy<MergeCase> {
             }
             let (recv_ns, pt) = if ty == Ty::Date { (0, PT::default()) } else { (recv_ns, pt) };
             let pd = if ty == Ty::Date && pd.day.is_none() { PD { day: Some(from_days(recv_day + dd).2), ..PD::default() } } else { pd };
-            MergeCase { ty, op: Op::With, recv_day, recv_ns, pd, pt, ov, zone: ZoneSel::UtcNamed, offset_given: false }
+            MergeCase { ty, op: Op::With, recv_day, recv_ns, pd, pt, ov, zone: ZoneSel::UtcNamed, offset_given: false, offset_delta: 0 }
         })
         .boxed()
 }
@@ -1307,8 +1315,8 @@ fn merge_case_general() -> BoxedStrategy<MergeCase> {
         (Ty::YearMonth, Op::From),
         (Ty::Zoned, Op::From),
     ]);
-    (ty_op, gen::datetime(), pd_with_mask(any_mask4(), 0.1), pd_with_mask(from_mask4(), 0.1), pt_any(), ov_any(), zone_any(), prop::bool::weighted(0.3))
-        .prop_map(|((ty, op), (recv_day, recv_ns), pd_with, pd_from, pt, ov, zone, offset_given)| {
+    (ty_op, gen::datetime(), pd_with_mask(any_mask4(), 0.1), pd_with_mask(from_mask4(), 0.1), pt_any(), ov_any(), zone_any(), prop::bool::weighted(0.4), prop_oneof![3 => Just(0i16), 1 => proptest::sample::select(vec![60i16, -60, 1, -1, 30, 300])])
+        .prop_map(|((ty, op), (recv_day, recv_ns), pd_with, pd_from, pt, ov, zone, offset_given, offset_delta)| {
             let pd = if op == Op::With { pd_with } else { pd_from };
             // normalise what the case does not use, so that distinct cases are distinct inputs
             let (recv_day, recv_ns) = if op == Op::With { (recv_day, recv_ns) } else { (0, 0) };
@@ -1320,7 +1328,8 @@ fn merge_case_general() -> BoxedStrategy<MergeCase> {
                 Ty::Date | Ty::YearMonth => (recv_day, 0),
                 _ => (recv_day, recv_ns),
             };
-            MergeCase { ty, op, recv_day, recv_ns, pd, pt, ov, zone, offset_given }
+            let offset_delta = if ty == Ty::Zoned && offset_given { offset_delta } else { 0 };
+            MergeCase { ty, op, recv_day, recv_ns, pd, pt, ov, zone, offset_given, offset_delta }
         })
         .boxed()
 }
